@@ -14,19 +14,6 @@ Definition show_datetime (d : datetime) : bytes :=
   str "dt(" ++ show_option show_date (d_date d) ++ str ";" ++ show_option show_time (d_time d)
   ++ str ";" ++ show_option show_offset (d_offset d) ++ str ")".
 
-(* the document grammar's date-time as reached through `Value::from_str` *)
-Definition doc_datetime (s : bytes) : option datetime :=
-  match s with
-  | b :: _ =>
-    if in_class VALUE_NUMBER_START b then
-      match date_time (new_input s) with
-      | Ok d i => match rest i with [] => Some d | _ => None end
-      | _ => None
-      end
-    else None
-  | [] => None
-  end.
-
 Definition first_some {A} (a b : option A) : option A := match a with Some _ => a | None => b end.
 
 Definition cmd_dt (s : bytes) : bytes :=
